@@ -1,13 +1,18 @@
 """C16 -- runs terminate with well-formed results and never hide a failed step (path rules on run_sim / solve).
 
-The rules are stated over ROLES, not over the text of today's source:
+The rules are stated over ROLES as far as the data flow below carries; the operands that remain after resolution ARE compared as text
+(see the last item).  Techniques (DESIGN 2b): R-C16-1, -2, -3, -6 are T1 structural (CFG reachability with cut branch edges, dominators,
+reaching definitions / origins); R-C16-4 is T2 (symbolic path enumeration of initialize_results_dict / save_results to append tables,
+event text parsed by regex) plus an AST pattern for get_results; R-C16-5 is T1 (must-pass / dominance for advance, duration test, continue)
+plus T2+T3 for "timestep is an integer >= 1": the formula of TimeOptions.__setattr__ is extracted symbolically and then only evaluated on
+6 sample values (-7/2, 0, 2/5, 1, 79/10, 3600).
 
 * a statement CFG (sa/cfg.py) is enriched with reaching definitions (class Flow below).  Every expression a rule looks at is
   first *resolved*: a local name with one reaching, call-free definition whose inputs are not rewritten in between is replaced
   by that definition (`t = self._wn.sim_time ... int(t)` reads `int(self._wn.sim_time)`); names with several definitions or
   call results are followed to their *origins* (`solver_status` -> element 0 of `_solver_helper(...)`), through copies, tuple
   packing/unpacking and conditional expressions.
-* a branch test is never matched as text: either it is evaluated on the finite set of values its role can take (solver status
+* the POLARITY of a branch test is not matched as text: either the test is evaluated on two values its role can take (solver status
   0/1, trial counter far below / far above the bound, convergence_error False/True; sa/peval.py) which yields the OUTCOME edge on
   which the fact holds, or it is decomposed into the literals each outcome implies (`not`, and/or, ==/!=, </>=, `x == False`),
   so `if a != 0: return` and `if a == 0: ...` guard the same edge.  Path obligations are then reachability questions on the CFG
@@ -15,6 +20,11 @@ The rules are stated over ROLES, not over the text of today's source:
 * the objects are found by role: the results object is what run_sim returns, the clock is what is advanced by the hydraulic
   timestep attribute that _setup_sim_options fills from options.time.hydraulic_timestep, the status / message / count variables
   are whatever receives the elements of _solver_helper's triple, the tables of hydraulics.py are the positional parameters.
+* what is still matched as TEXT after that: the OPERANDS of the literals -- R-C16-2 recognises the tolerance test by the regex
+  for an attribute `self.<..tol..>` and `abs(` / `norm(`, `len(...)`, fsolve's `ier`, and the failure reports by four message substrings; R-C16-3
+  compares the appended argument with `int(<clock>)`, the duplicate test with `<res>.time[-1]` and isinstance type names as unparsed text
+  and needs the clock attribute to be named sim_time; R-C16-5 needs the duration literal to end in `options.time.duration`; R-C16-4 uses
+  hard-coded key / family sets (not a direct comparison of the three functions); R-C16-6 reads format specs by regex on string constants.
 """
 import ast
 import re
@@ -34,19 +44,24 @@ OPT = "wntr/network/options.py"
 RES = "wntr/sim/results.py"
 
 EXPLANATION = (
-    "Path rules on a hand-built statement CFG of WNTRSimulator.run_sim, NewtonSolver.solve and _solver_helper, with reaching definitions so that "
-    "variables are identified by what flows into them: every path from a solver call to store_results_in_network passes a test that is decided by "
-    "the status of that solve alone; from the failure (and trial-limit) edge every exit either raises (only, and always, under convergence_error) or "
-    "passes warnings.warn and `results.error_code = ResultsStatus.error` and leaves the loop, never reaching store/save/append; error_code is None "
-    "otherwise; every value solve/_solver_helper can return is a (SolverStatus, message, count) triple, `converged` only behind the tolerance test "
-    "(resp. fsolve's ier == 1), an exception in a scipy solver gives `error`; loops are range-bounded; each save_results is followed by exactly one "
-    "results.time.append of int(clock) (or a raise) guarded by the duplicate-time test; result families and keys of initialize_results_dict / "
-    "save_results / get_results coincide and each family appends once per key per call; the accepted path advances the clock by the (>= 1) "
-    "hydraulic timestep before the duration test, the re-solve path increments the bounded trial counter. Decides control-flow discipline, not "
-    "finiteness of numbers.")
+    "T1 structural rules on a statement CFG of WNTRSimulator.run_sim, NewtonSolver.solve and _solver_helper with reaching definitions (variables "
+    "identified by what flows into them; branch polarity by evaluating the test on two role values; the remaining operands compared as text / regex). "
+    "R-C16-1: every path from a solver call to store_results_in_network passes a test decided by the status of that solve; from the failure and "
+    "trial-limit edges every exit raises (only, and always, under convergence_error) or passes warnings.warn and `results.error_code = "
+    "ResultsStatus.error` and leaves the loop, never reaching store/save/append. R-C16-2: every return of solve/_solver_helper is a (SolverStatus, "
+    "message, count) triple, `converged` only behind the tolerance test (regex on self.*tol*, abs/norm) or fsolve's ier == 1, exceptions and maxiter "
+    "give `error` (message substrings), loops are range loops. R-C16-3: each save_results is followed by exactly one results.time.append(int(sim_time)) "
+    "or a raise, behind the duplicate-time test (text comparison). R-C16-4 (T2: symbolic path enumeration to append tables, event text parsed by regex; "
+    "get_results by AST pattern): families and keys of initialize_results_dict / save_results equal the module's hard-coded sets and each family "
+    "appends once per key per call. R-C16-5: the accepted path advances the clock by the hydraulic timestep before the duration test, every continue "
+    "is dominated by the trial increment and test (T1); the timestep formula of TimeOptions.__setattr__ is extracted (T2) and checked to be an integer "
+    ">= 1 on 6 sample values only (T3). R-C16-6: no format spec on the possibly-None iteration count; report_timestep classified by the same isinstance "
+    "types in set-up and loop; solve's loop variable pre-bound. Decides control-flow discipline, not finiteness of numbers.")
 RULE_TEXT = "one instance = one path obligation (source node, target set, required via set / cut edges) or one family/key table entry"
 ASSUMPTIONS = ["only explicit raise statements and try/except edges are modelled as exceptional flow", "termination when back-tracking keeps producing new partial steps is not decided",
-               "a local alias of an attribute chain is assumed to keep its value across calls (only explicit stores between definition and use invalidate it)"]
+               "a local alias of an attribute chain is assumed to keep its value across calls (only explicit stores between definition and use invalidate it)",
+               "operands of branch tests are recognised by text / regex after resolution (self.*tol*, abs( / norm(, <res>.time[-1], int(<clock>), options.time.duration, four error-message substrings)",
+               "R-C16-5 checks `hydraulic timestep is an integer >= 1` on the sample values -7/2, 0, 2/5, 1, 79/10, 3600, not for every input"]
 
 
 # ===================================================================================================== data flow on the CFG
